@@ -218,9 +218,12 @@ def rule_algebra(repo, rule):
         rule.violation(init.loc(), init.fq, "; ".join(body), "negated condition is not computed before entering the guard", "algebra/IfContext")
     # iterator: continuation decided by public comparisons
     nx = repo.cls(BR, "ObliviousIterator").methods["__next__"]
+    from ..flatten import resolve_locals
     tests = [n for n in ast.walk(nx.node) if isinstance(n, ast.If)]
-    pub = [t for t in tests if "self.ix < self.stop" in norm(t.test) or "self.ix < self.max" in norm(t.test)]
-    if pub and "isinstance(self.stop, int)" in norm(pub[0].test):
+    rtxt = {id(t): norm(resolve_locals(nx.node, t.test)) for t in tests}
+    pub = [t for t in tests if "self.ix < self.stop" in rtxt[id(t)] or "self.ix < self.max" in rtxt[id(t)]
+           or "self.ix < (self.stop if isinstance(self.stop, int) else self.max)" in rtxt[id(t)]]
+    if pub and "isinstance(self.stop, int)" in rtxt[id(pub[0])]:
         rule.ok(nx.loc(pub[0]), nx.fq, norm(pub[0].test)[:110], "the loop runs to the public bound (stop if public, else max)")
     else:
         rule.violation(nx.loc(), nx.fq, "; ".join(norm(t.test) for t in tests)[:140], "loop continuation is not decided by the public bound",
